@@ -280,6 +280,14 @@ def gen_scenario(rng, wide=False):
     pps = scen.rand_planning_problem_set(rng, lanelet_ids=ids)
     if wide:   # after everything else: the scenarios of earlier replays (no "wide" key) stay what they were
         widen(rng, sc, 600)
+        if rng.random() < 0.5:
+            # a lanelet built with mandatory arguments only: no lanelet type, no users, default line markings (what a
+            # programmatically built map or a protobuf file without types holds)
+            import numpy as _np
+            from commonroad.scenario.lanelet import Lanelet as _Lanelet
+            x0 = 200.0 + rng.randint(0, 5)
+            sc.add_objects(_Lanelet(_np.array([[x0, 3.0], [x0 + 10, 3.0]]), _np.array([[x0, 1.5], [x0 + 10, 1.5]]),
+                                    _np.array([[x0, 0.0], [x0 + 10, 0.0]]), 97))
     return sc, pps
 
 
